@@ -160,12 +160,24 @@ type chunkReader struct {
 	chunks      [][]byte
 	eofWithData bool
 	reads       int
+	// zeroEvery > 0: before every zeroEvery-th Read that would return data (or
+	// io.EOF) one Read returns (0, nil) — "nothing happened", which io.Reader
+	// allows and a caller must answer by reading again. Always finitely many.
+	zeroEvery int
+	calls     int
+	zeroDone  bool
 	// scribble: overwrite the bytes handed out by the previous Read (the
 	// caller's buffer belongs to the caller again, but a correct consumer must
 	// not depend on data it no longer owns — used by C15).
 }
 
 func (r *chunkReader) Read(p []byte) (int, error) {
+	if r.zeroEvery > 0 && !r.zeroDone && r.calls%r.zeroEvery == 0 {
+		r.zeroDone = true
+		return 0, nil
+	}
+	r.zeroDone = false
+	r.calls++
 	for len(r.chunks) > 0 && len(r.chunks[0]) == 0 {
 		r.chunks = r.chunks[1:]
 	}
